@@ -24,6 +24,8 @@ func init() {
 		"(*sync.RWMutex).RUnlock": func(v *Verifier, s *State, c *ssa.CallCommon, f *ssa.Function, a []*Value, p token.Pos) *Value { v.unlock(s, a[0], false, p); return nil },
 		"(*sync.Once).Do":         nativeOnceDo,
 		"sort.Search":             nativeSortSearch,
+		"sort.Slice":              nativeSortSlice,
+		"sort.SliceStable":        nativeSortSlice,
 		"errors.New":              nativeNonNilErr,
 		"fmt.Errorf":              nativeNonNilErr,
 		"github.com/pkg/errors.New":    nativeNonNilErr,
@@ -400,6 +402,63 @@ func nativeSortSearch(v *Verifier, s *State, c *ssa.CallCommon, f *ssa.Function,
 	}
 	v.assumptions["sort.Search: binary-search contract (0<=r<=n, f(r) if r<n, !f(r-1) if r>0) for a predicate without side effects"] = true
 	return scalar(intT, r)
+}
+
+// ---------- sort.Slice ----------
+// ASSUMED contract of sort.Slice(x, less) for a side-effect-free less: afterwards the window of x is a rearrangement
+// of what it held (every element is one of the old elements: perm) and no later element is less than an earlier one.
+var sortSeq int
+
+func nativeSortSlice(v *Verifier, s *State, c *ssa.CallCommon, f *ssa.Function, a []*Value, p token.Pos) *Value {
+	mi, ok := c.Args[0].(*ssa.MakeInterface)
+	if !ok {
+		v.havocPointees(s, a)
+		s.note("sort.Slice of a value that is not a slice expression: elements unknown")
+		return nil
+	}
+	sl := v.reg(s, mi.X)
+	stt, ok := under(mi.X.Type()).(*types.Slice)
+	if !ok || sl == nil || len(sl.L) < 3 {
+		v.havocPointees(s, a)
+		return nil
+	}
+	et := stt.Elem()
+	sortSeq++
+	perm := fmt.Sprintf("sortperm!%d", sortSeq)
+	k := BoundVar("k!sort", SInt)
+	inWin := And(Le(Int(0), k), Lt(k, sl.sLen()))
+	pk := App(perm, SInt, k)
+	for _, hk := range heapKeys(elemBase(et), et, SInt, SInt) {
+		h := s.heapArr(hk.name, hk.sort)
+		_, inner, _ := arrayParts(hk.sort)
+		oldIn := Select(h, sl.sArr())
+		nw := Fresh("sorted!"+hk.name, inner)
+		s.heap[hk.name] = Store(h, sl.sArr(), nw)
+		addFact(nw, Forall([]*Term{k}, Implies(inWin, And(Le(Int(0), pk), Lt(pk, sl.sLen()), Eq(Select(nw, Elt(sl.sOff(), k)), Select(oldIn, Elt(sl.sOff(), pk))))), []*Term{Select(nw, Elt(sl.sOff(), k))}))
+	}
+	v.assumptions["sort.Slice: the slice is rearranged (every element afterwards is one of the elements before) and ordered by a side-effect-free less function"] = true
+	less := a[1]
+	if less == nil || less.Clo == nil {
+		s.note("sort.Slice with unknown less function")
+		return nil
+	}
+	v.noFork++
+	defer func() { v.noFork-- }()
+	intT := types.Typ[types.Int]
+	i := Fresh("sort!i", SInt)
+	j := Fresh("sort!j", SInt)
+	st := s.clone()
+	st.assume(And(Le(Int(0), i), Lt(i, sl.sLen()), Le(Int(0), j), Lt(j, sl.sLen())))
+	res := v.inline(st, less.Clo.Fn, []*Value{scalar(intT, i), scalar(intT, j)}, less.Clo, p)
+	if res != nil && !st.dead {
+		bi := BoundVar("i!sort", SInt)
+		bj := BoundVar("j!sort", SInt)
+		// no later element is less than an earlier one: !less(j, i) for i < j
+		body := Subst(res.term(), map[*Term]*Term{i: bj, j: bi})
+		guard := And(Le(Int(0), bi), Lt(bi, bj), Lt(bj, sl.sLen()))
+		s.assume(Forall([]*Term{bi, bj}, Implies(guard, Not(body))))
+	}
+	return nil
 }
 
 // ---------- callbacks ----------
